@@ -387,5 +387,10 @@ func runGS(t []string) string {
 		}
 	}
 	b.WriteString(obs.String())
+	b.WriteString(" | B2")
+	for i := range regs {
+		x := regs[i].Bytes()
+		b.WriteString(" " + hexs(x[:]))
+	}
 	return b.String()
 }
